@@ -8,6 +8,12 @@ model  : Annet.Vlan.* (lean/AnnetModel/Model/Vlan.lean) through Glue/C11.lean.
 oracle : a device simulator written here (independent range reader; add / remove / clear commands executed on
          the old VLAN set) — checks final set == new set and that no common VLAN ever disappears, and that
          expand(collapse(S)) == S.  It only looks at the real code's output.
+
+Repaired defects this check found (known_findings.json "fixed"; corpus/C11/regression-*.json are their inputs).
+If one returns the oracle reports it again under its own signature:
+  679839a  huawei:multi_all:undo-all-with-unchanged-lines
+  7d0d905  huawei:single:whole-key-undo-with-unchanged-lines
+  7afbb71  huawei:pool:list-keyed-by-first-id:common-vlan-removed-transiently
 """
 import itertools
 import random
@@ -15,8 +21,9 @@ import random
 ID = "C11"
 RULE = ("VLAN sets S_old,S_new: exhaustive over all pairs of subsets of a fixed universe (quick: 6 elements "
         "{2,3,4,6,7,9}; thorough: 8 elements {2,3,4,6,7,9,10,4094}) for huawei single/multi/multi_all and cisco "
-        "simple/swtrunk x catalyst, each pair with the one-line writing and a seeded splitting over 1..4 lines; "
-        "all splittings over <=4 lines of both sides for a 5-element universe (thorough: the 6-element one); seeded "
+        "simple/swtrunk x catalyst, each pair with the one-line writing and a seeded splitting over 1..4 lines (all "
+        "three huawei modes, single included); all splittings over <=4 lines of both sides for a 5-element universe "
+        "(thorough: the 6-element one) for huawei multi_all/multi/single and cisco swtrunk; seeded "
         "random sets over 1..4094 (runs, up to 60 range items, so that chunking is reached); the same through the "
         "real pipeline with the shipped rulebooks (huawei CE/Quidway trunk, hybrid tagged/untagged, vlan batch, vlan "
         "pool, stp instance; cisco catalyst/non-catalyst and nexus allowed vlan, vlan, vlan group); library "
@@ -59,7 +66,7 @@ H_SCEN = {
     "untagged": ("interface GE1/0/3", "port hybrid untagged vlan", "multi_all", "undo port hybrid untagged vlan",
                  ["port link-type hybrid"]),
     "batch": (None, "vlan batch", "multi", "undo vlan batch", ["sysname sw1"]),
-    "pool": ("vlan pool P1", "vlan", "multi", "undo vlan {}", []),
+    "pool": ("vlan pool P1", "vlan", "multi", "undo vlan", []),      # rule `vlan %logic=...multi`: one key ()
     "instance": ("stp region-configuration", "instance 1 vlan", "single", "undo instance {}", ["region-name r1"]),
 }
 C_SCEN = {
@@ -245,11 +252,12 @@ def gen(desc):
                 sn = _subset(uni, b)
                 for (mode, p, rev, key) in H_VARIANTS:
                     yield _hl(mode, p, rev, key, lines_h(p, so, ()), lines_h(p, sn, ()))
-                    if mode != "single":
-                        co = rnd_cuts(rng, len(items_h(so)))
-                        cn = rnd_cuts(rng, len(items_h(sn)))
-                        if co or cn:
-                            yield _hl(mode, p, rev, key, lines_h(p, so, co), lines_h(p, sn, cn))
+                    # several lines per key in all three modes (`single` too: unchanged sibling lines are in
+                    # the property's domain; more than one changed line per side is its documented refusal)
+                    co = rnd_cuts(rng, len(items_h(so)))
+                    cn = rnd_cuts(rng, len(items_h(sn)))
+                    if co or cn:
+                        yield _hl(mode, p, rev, key, lines_h(p, so, co), lines_h(p, sn, cn))
                 for (mode, p, cat) in C_VARIANTS:
                     yield _cl(mode, p, cat, lines_c(p, so, (), mode), lines_c(p, sn, (), mode))
                     co = rnd_cuts(rng, len(items_c(so)))
@@ -271,15 +279,15 @@ def gen(desc):
                         (mode, p, cat) = C_VARIANTS[1]
                         yield _cl(mode, p, cat, lines_c(p, so, co, mode), lines_c(p, sn, cn, mode))
                         if len(co) + len(cn) > 0:
-                            (mode, p, rev, key) = H_VARIANTS[1]
-                            yield _hl(mode, p, rev, key, lines_h(p, so, co), lines_h(p, sn, cn))
+                            for (mode, p, rev, key) in H_VARIANTS[1:]:
+                                yield _hl(mode, p, rev, key, lines_h(p, so, co), lines_h(p, sn, cn))
     elif kind == "rnd":
         rng = random.Random(desc["seed"])
         for _ in range(desc["n"]):
             so, sn = rnd_pair(rng)
             if rng.random() < 0.5:
                 (mode, p, rev, key) = rng.choice(H_VARIANTS)
-                mp = 1 if mode == "single" and rng.random() < 0.8 else 4
+                mp = 1 if mode == "single" and rng.random() < 0.5 else 4
                 old = lines_h(p, so, rnd_cuts(rng, len(items_h(so)), mp))
                 new = lines_h(p, sn, rnd_cuts(rng, len(items_h(sn)), mp))
                 if rng.random() < 0.2:
@@ -326,7 +334,7 @@ def _gen_pipe(rng):
     if rng.random() < 0.55:
         scen = rng.choice(["trunk", "trunk", "tagged", "untagged", "batch", "batch", "pool", "instance"])
         (_, p, mode, _, _) = H_SCEN[scen]
-        mp = 1 if scen == "instance" and rng.random() < 0.85 else 4
+        mp = 1 if scen == "instance" and rng.random() < 0.5 else 4
         old = lines_h(p, so, rnd_cuts(rng, len(items_h(so)), mp))
         new = lines_h(p, sn, rnd_cuts(rng, len(items_h(sn)), mp))
         return dict(k="hp", hw=rng.choice(HW_H), scen=scen, old=old, new=new)
@@ -604,16 +612,6 @@ def impl(case):
 
 
 # ------------------------------------------------------------------ model side
-def _groups_pool(old, new):
-    """rule `vlan *` under `vlan pool *`: the key is the first id of the line"""
-    keys = []
-    for r in old + new:
-        kk = r.split()[1]
-        if kk not in keys:
-            keys.append(kk)
-    return [(kk, [r for r in old if r.split()[1] == kk], [r for r in new if r.split()[1] == kk]) for kk in keys]
-
-
 def requests(case):
     k = case["k"]
     if k == "hl":
@@ -632,9 +630,8 @@ def requests(case):
                      removed=case["removed"], unchanged=case["unchanged"], affected=case["affected"])]
     if k == "hp":
         (_block, _p, mode, rev, _noise) = H_SCEN[case["scen"]]
-        if case["scen"] == "pool":
-            return [dict(op="c11.h_pipe", mode=mode, rev=rev.format(kk), old=o, new=n)
-                    for kk, o, n in _groups_pool(case["old"], case["new"])]
+        # every scenario is one (rule, key) group of the shipped rulebook — the pool too: its rule is
+        # `vlan %logic=huawei.vlandb.multi` (key ()), no longer `vlan *` (key = first id of the line)
         return [dict(op="c11.h_pipe", mode=mode, rev=rev.format("1"), old=case["old"], new=case["new"])]
     if k == "cp":
         (_block, _p, mode, _noise) = C_SCEN[case["scen"]]
